@@ -381,6 +381,11 @@ pub trait TokenManagerLockUnlockContract:
     ) {
         match result {
             ManagedAsyncCallResult::Ok(token_id_raw) => {
+                // A second issuance that was in flight must not replace the recorded token
+                if !self.token_identifier().is_empty() {
+                    return;
+                }
+
                 let token_identifier = EgldOrEsdtTokenIdentifier::esdt(token_id_raw);
 
                 self.interchain_token_deployed_event(
